@@ -55,7 +55,15 @@ def grids(kd):
 
 
 def state(kd):
-    return (kd.data.clone(), kd.traj.as_tensor().clone(), kd.header.acq_info.scan_counter.clone(), kd.header.acq_info.idx.k1.clone(), kd.data._version)
+    """everything the source object shows to its user: tensors (values and in-place version), every per-readout header
+    field, and the non-tensor header entries (encoding limits, matrices, ...) through their repr"""
+    import dataclasses
+
+    h = kd.header
+    idx = h.acq_info.idx
+    labels = tuple(getattr(idx, f.name).clone() for f in dataclasses.fields(idx) if torch.is_tensor(getattr(idx, f.name)))
+    plain = repr((h.encoding_limits, h.recon_matrix, h.encoding_matrix, h.recon_fov, h.encoding_fov))
+    return (kd.data.clone(), kd.traj.as_tensor().clone(), h.acq_info.scan_counter.clone(), *labels, kd.data._version, plain)
 
 
 def run(case, drv) -> Outcome:
